@@ -11,6 +11,8 @@
 (* Value classes:                                                           *)
 (*   int n | float (vi hundredths) | max 2^31-1 | min -(2^31-1) | over 2^31 *)
 (*   | under -2^31 | big 1e10 | nan | inf | empty | garbage                 *)
+(*   (over / under also on the float fields: rejected by the statement,     *)
+(*   let through by the single-precision ones - see ParseFW)                *)
 (*   | cmt  "n // c"  (a comment follows; not stripped in [Metadata])       *)
 (*   | colon "n:7"    (a second colon: part of the value)                   *)
 (*   | str  a text from the string pool                                     *)
@@ -47,6 +49,15 @@ ParseI32(v) == CASE v.vc = "int" -> Acc(v.vi)
 ParseF(v) == CASE v.vc = "int" -> Acc(v.vi * 100)
                [] v.vc = "float" -> Acc(v.vi)
                [] OTHER -> Rej
+\* The five single-precision fields.  The limit 2^31-1 is not a single-precision number: the code compares with
+\* its rounding, 2^31, so a text between 2^31-1 and 2^31+128 (which itself rounds to 2^31) gets through.  The
+\* statement says "within +-(2^31-1)": ParseF rejects; ParseFW is the code's reading (known finding, C11), the
+\* sentinels +-(2^31-1) standing for +-2^31 (hundredths of it do not fit TLC's integers; "max"/"min" are not in the
+\* alphabet of these fields).
+F32Keys == {"StackLeniency", "HPDrainRate", "CircleSize", "OverallDifficulty", "ApproachRate"}
+ParseFW(v, k) == IF k \in F32Keys /\ v.vc = "over" THEN Acc(2147483647)
+                 ELSE IF k \in F32Keys /\ v.vc = "under" THEN Acc(-2147483647)
+                 ELSE ParseF(v)
 Flag(v) == LET r == ParseI32(v) IN IF r.ok THEN Acc(IF r.v = 1 THEN 1 ELSE 0) ELSE Rej
 \* exact digit strings only
 Mode(v) == IF v.vc = "int" /\ v.vi \in 0..3 /\ v.vs = "" THEN Acc(v.vi) ELSE Rej
@@ -99,19 +110,23 @@ ConvBm(val, sec) ==
       [] v.vc = "int" -> <<v.vi>>
       [] v.vc = "max" -> <<2147483647>>
       [] v.vc = "min" -> <<-2147483647>>
-      [] v.vc = "under" -> <<-2147483647 - 1>>
       [] OTHER -> <<>>
+\* the code's reading: entries go through the standard library's integer parser, whose range is one wider at the
+\* bottom, so the entry -2^31 is kept (known finding, C11)
+ConvBmW(val, sec) ==
+    IF Eff(val, sec).vc = "under" THEN <<-2147483647 - 1>> ELSE ConvBm(val, sec)
 
-Conv(ty, val, sec) ==
+ConvX(ty, val, sec, w) ==
     LET v == Eff(val, sec) IN
     CASE ty = "i32" -> ParseI32(v)                               \* integer fields are not scaled
-      [] ty \in {"f", "od", "ar"} -> ParseF(v)
+      [] ty \in {"f", "od", "ar"} -> IF w THEN ParseFW(v, val.k) ELSE ParseF(v)
       [] ty = "sm" -> LET r == ParseF(v) IN IF r.ok THEN Acc(Clamp(r.v, 40, 360)) ELSE Rej
       [] ty = "tr" -> LET r == ParseF(v) IN IF r.ok THEN Acc(Clamp(r.v, 50, 800)) ELSE Rej
       [] ty = "flag" -> Flag(v)
       [] ty = "mode" -> Mode(v)
       [] ty = "bank" -> EnumOf(v, BankNames)
       [] ty = "countdown" -> EnumOf(v, CountdownNames)
+Conv(ty, val, sec) == ConvX(ty, val, sec, FALSE)
 
 Defaults(sec) ==
     CASE sec = "General" -> [AudioFilename |-> "", AudioLeadIn |-> 0, PreviewTime |-> -1, SampleSet |-> 0, SampleVolume |-> 100,
@@ -124,18 +139,20 @@ Defaults(sec) ==
                                 SliderMultiplier |-> 140, SliderTickRate |-> 100, hasAR |-> FALSE]
 
 \* one record applied to a section state; [ok, st]
-ApplyKV(st, rec, sec) ==
+ApplyKVX(st, rec, sec, w) ==
     LET ty == TypeOf(sec, rec.k) IN
     IF ty = "unknown" THEN [ok |-> TRUE, st |-> st]                  \* unknown key: ignored, not an error
     ELSE IF ty = "str" THEN [ok |-> TRUE, st |-> [st EXCEPT ![rec.k] = StrOf(rec, sec)]]
     ELSE IF ty = "path" THEN [ok |-> TRUE, st |-> [st EXCEPT ![rec.k] = StdPath(StrOf(rec, sec))]]
-    ELSE IF ty = "bookmarks" THEN [ok |-> TRUE, st |-> [st EXCEPT ![rec.k] = ConvBm(rec, sec)]]
-    ELSE LET r == Conv(ty, rec, sec) IN
+    ELSE IF ty = "bookmarks" THEN [ok |-> TRUE, st |-> [st EXCEPT ![rec.k] = IF w THEN ConvBmW(rec, sec) ELSE ConvBm(rec, sec)]]
+    ELSE LET r == ConvX(ty, rec, sec, w) IN
          IF ~r.ok THEN [ok |-> FALSE, st |-> st]                      \* invalid value: field untouched
          ELSE IF ty = "od" THEN [ok |-> TRUE, st |-> [st EXCEPT !.OverallDifficulty = r.v,
                                                                !.ApproachRate = IF st.hasAR THEN @ ELSE r.v]]
          ELSE IF ty = "ar" THEN [ok |-> TRUE, st |-> [st EXCEPT !.ApproachRate = r.v, !.hasAR = TRUE]]
          ELSE [ok |-> TRUE, st |-> [st EXCEPT ![rec.k] = r.v]]
+
+ApplyKV(st, rec, sec) == ApplyKVX(st, rec, sec, FALSE)
 
 \* ---- events -------------------------------------------------------------------
 Ev0 == [bg |-> "", breaks |-> <<>>]
@@ -195,7 +212,7 @@ ValsFor(sec, k) ==
       [] ty \in {"bank", "countdown"} -> NumVals \cup {V("str", 0, s) : s \in {"Soft", "Half speed", "Normal", "Drum", "None", "soft"}}
       [] ty = "bookmarks" -> NumVals \cup IntOnlyVals \cup {V("bm", i, "") : i \in 1..5}
       [] ty \in {"i32", "flag", "mode"} -> NumVals \cup IntOnlyVals
-      [] OTHER -> NumVals \ {V("max", 0, ""), V("min", 0, "")}        \* (2^31-1)*100 does not fit TLC's integers
+      [] OTHER -> (NumVals \ {V("max", 0, ""), V("min", 0, "")}) \cup IntOnlyVals   \* (2^31-1)*100 does not fit TLC's integers
 
 KVAlpha(sec) ==
     SetToSeq(UNION {{[k |-> k, vc |-> v.vc, vi |-> v.vi, vs |-> v.vs] : v \in ValsFor(sec, k)} : k \in KeysOf(sec)})
@@ -240,8 +257,15 @@ Rec(i) ==
     /\ hist' = Append(hist, i)
     /\ UNCHANGED done
 
+\* the same history under the code's reading of the two limits (see ParseFW, ConvBmW): what the replay names
+\* as the known findings when the decoded value equals it and not `st`
+RECURSIVE FoldW(_, _, _)
+FoldW(s, a, h) == IF h = <<>> THEN [st |-> s, acc |-> a]
+                  ELSE LET r == ApplyKVX(s, Alpha[Head(h)], Section, TRUE) IN FoldW(r.st, Append(a, r.ok), Tail(h))
+StW == IF Section \in {"General", "Editor", "Metadata", "Difficulty"} THEN FoldW(St0, <<>>, hist) ELSE [st |-> st, acc |-> acc]
+
 Finish == /\ ~done /\ done' = TRUE
-          /\ (Emit => PrintT("CASE " \o ToJson([sec |-> Section, h |-> hist, st |-> st, acc |-> acc])))
+          /\ (Emit => PrintT("CASE " \o ToJson([sec |-> Section, h |-> hist, st |-> st, stw |-> StW.st, accw |-> StW.acc, acc |-> acc])))
           /\ UNCHANGED <<hist, st, acc>>
 
 Next == (~done /\ Len(hist) < MaxRecs /\ \E i \in 1..Len(Alpha) : Rec(i)) \/ Finish
